@@ -20,5 +20,5 @@ fi
 cd /verif && VERIF_REPO=$WT ./vcheck $PID ${TIER:+--tier $TIER} 2>&1 | tail -${TAILN:-6}
 rc=${PIPESTATUS[0]}
 git -C /repo worktree remove --force $WT
-rm -rf /verif/.work/${PID}_* /verif/.work/altwork_*
+rm -rf /verif/.work/${PID}_$(python3 -c "import hashlib,sys;print(hashlib.sha1(sys.argv[1].encode()).hexdigest()[:6])" $WT) /verif/.work/altwork_$(python3 -c "import hashlib,sys;print(hashlib.sha1(sys.argv[1].encode()).hexdigest()[:10])" $WT)
 echo "== mutant $NAME on $PID: rc=$rc"
